@@ -81,7 +81,17 @@ func monitorC13(cfg CheckConfig, res *hx.Result, traces []*Trace) error {
 				a.Do(op)
 			}
 			app.PersistMinDuration = old
-			loaded, err := app.LoadShutterAppFromFile(path)
+			// every third time the state directory is moved before the restart: the node is started from the file's
+			// new place and has to keep saving there
+			loadPath := path
+			if n%3 == 1 {
+				loadPath = path + ".moved"
+				if err := os.Rename(path, loadPath); err != nil {
+					return err
+				}
+				res.Count("c13:restart-from-moved-file")
+			}
+			loaded, err := app.LoadShutterAppFromFile(loadPath)
 			res.Count("c13:save-load")
 			fail := ""
 			if err != nil {
@@ -96,10 +106,17 @@ func monitorC13(cfg CheckConfig, res *hx.Result, traces []*Trace) error {
 			}
 			// both continue with the blocks after the saved height
 			if fail == "" {
+				if loadPath != path {
+					app.PersistMinDuration = -1 // the restarted node goes on saving at every commit
+				}
+				commitsAfter := 0
 				for j := at + 1; j < len(t.H.Ops); j++ {
 					op := t.H.Ops[j]
 					if op.Kind == "init" {
 						break
+					}
+					if op.Kind == "commit" {
+						commitsAfter++
 					}
 					ra, rb := a.Do(op), b.Do(op)
 					res.Count("c13:replayed-ops")
@@ -108,11 +125,23 @@ func monitorC13(cfg CheckConfig, res *hx.Result, traces []*Trace) error {
 						break
 					}
 				}
+				app.PersistMinDuration = old
 				if fail == "" && ShowState(a.App) != ShowState(b.App) {
 					fail = "final state of the restarted node differs"
 				}
+				if fail == "" && loadPath != path && commitsAfter > 0 {
+					again, err := app.LoadShutterAppFromFile(loadPath)
+					if err != nil {
+						fail = "the file the node was restarted from does not load after its later saves: " + err.Error()
+					} else if again.LastBlockHeight != b.App.LastBlockHeight {
+						fail = fmt.Sprintf("the node restarted from %s (moved there from %s) is at height %d after %d more commits, the file it was started from still holds height %d: its saves go elsewhere",
+							filepath.Base(loadPath), filepath.Base(path), b.App.LastBlockHeight, commitsAfter, again.LastBlockHeight)
+					}
+				}
 			}
 			os.Remove(path)
+			os.Remove(loadPath)
+			os.Remove(loadPath + ".tmp")
 			if fail != "" {
 				ops := append(append([]*Op{}, t.H.Ops[:at+1]...), &Op{Kind: "state"})
 				ops = append(ops, t.H.Ops[at+1:]...)
